@@ -161,8 +161,26 @@ def parse_model(rep, nops):
     return out
 
 
+def canonical(ops):
+    """drop an `exit` that leaves no context this instance entered (nothing a user can write: a `with` block that was never
+    opened); resume_from_file builds a new instance, whose primed defaults are not a context that can be left"""
+    out, depth = [], 0
+    for op in ops:
+        if op[0] == "enter":
+            depth += 1
+        elif op[0] == "resume":
+            depth = 0
+        elif op[0] == "exit":
+            if depth == 0:
+                continue
+            depth -= 1
+        out.append(op)
+    return out
+
+
 def check_sequences(chk, seqs):
     drv = core.LeanDriver()
+    seqs = [canonical(ops) for ops in seqs]
     reps = drv.batch(["f64 session " + " ".join([str(len(ops))] + [op_wire(o) for o in ops]) for ops in seqs])
     for ops, rep in zip(seqs, reps):
         if not rep.ok:
